@@ -11,7 +11,9 @@
    for an arc do not lie on the ellipse SVG defines for it (Geom/SvgArcSpec.v:
    F.6.5 / F.6.6) or do not run from the start to the end point in the
    direction of the sweep flag; 8 the harness' cos / sin oracle for an arc's
-   x-axis-rotation is missing or is not the cosine / sine of that angle. *)
+   x-axis-rotation is missing or is not the cosine / sine of that angle.
+   iop kinds 5 (State().Transform a b c d e f) and 6 (SetLineWidth w) occur in
+   `CUses` cases only (instances of <use>: Geom/UseGraph.v draw_uses). *)
 From Verif Require Export Base.F32 Base.GoSem Geom.Matrix Geom.SvgPath Geom.Shapes Geom.SvgUnits Geom.UseGraph Geom.SvgArcSpec.
 From Coq Require Import QArith Qabs Qround List NArith ZArith Bool String Ascii.
 Import ListNotations.
@@ -47,6 +49,7 @@ Inductive case :=
 | CViewbox (p : par) (w h vx vy vw vh : Q) (o1 o2 o3 o4 : Q)
 | CShapes (fs : ouval) (vw vh : Q) (shs : list ushape) (tr : list tent) (r : dres)
 | CUse (g : graph) (root : list item) (r : dres)
+| CUses (ds : list udef) (us : list use_inst) (r : dres)
 | CRefs (r : dres).
 
 Definition pf := parse_path f32 rnd32 cv_f32.
@@ -79,7 +82,8 @@ Definition is_cubic (i : iop) : bool := let '(IOp k _ _ _ _ _ _) := i in (k =? 2
 
 (* what the model expects from the implementation: an exact op, an op whose
    control points are free, or a Rectangle call *)
-Inductive pat := PExact (o : op) | PLoose (o : op) | PRect (x y w h : Q).
+Inductive pat := PExact (o : op) | PLoose (o : op) | PRect (x y w h : Q)
+               | PTrans (a b c d e f : Q) | PLineWidth (w : Q).
 
 Definition pat_match (p : pat) (i : iop) : bool :=
   match p with
@@ -87,6 +91,9 @@ Definition pat_match (p : pat) (i : iop) : bool :=
   | PLoose o => op_match true o i
   | PRect x y w h => let '(IOp k a b c d _ _) := i in
                      (k =? 4)%N && qeqb x a && qeqb y b && qeqb w c && qeqb h d
+  | PTrans a b c d e f => let '(IOp k a' b' c' d' e' f') := i in
+                          (k =? 5)%N && qeqb a a' && qeqb b b' && qeqb c c' && qeqb d d' && qeqb e e' && qeqb f f'
+  | PLineWidth w => let '(IOp k a _ _ _ _ _) := i in (k =? 6)%N && qeqb w a
   end.
 
 (* ------------------------------------------------------------------ *)
@@ -456,6 +463,35 @@ Definition check_use (g : graph) (root : list item) (r : dres) : N :=
   | _ => 1%N
   end.
 
+(* instances of <use>: Transform / SetLineWidth / Rectangle / path calls of the
+   whole document (after the root's own two Transforms), against draw_uses *)
+Definition pat_of_use (m : use_op) : pat :=
+  match m with
+  | UTrans a b c d e f => PTrans a b c d e f
+  | ULineWidth w => PLineWidth w
+  | UShape o => pat_of o
+  end.
+Definition use_op_vals (m : use_op) : list Q :=
+  match m with
+  | UTrans a b c d e f => [a; b; c; d; e; f]
+  | ULineWidth w => [w]
+  | UShape o => shape_op_vals o
+  end.
+Definition uses_ops (ds : list udef) (us : list use_inst) : res (option (list use_op)) :=
+  draw_uses f32 rnd32 cv_f32 ds us.
+
+Definition check_uses (ds : list udef) (us : list use_inst) (r : dres) : N :=
+  let '(DRes st is) := r in
+  if (2 <=? st)%N then 4%N else
+  match uses_ops ds us with
+  | Ok (Some ms) =>
+      if (st =? 1)%N then 5%N
+      else if negb (forallb (fun m => forallb in_range32 (use_op_vals m)) ms) then 2%N
+      else match_code [] (map pat_of_use ms) is
+  | Ok None => if (st =? 1)%N then 0%N else 5%N
+  | _ => 1%N
+  end.
+
 (* reference graphs among gradients / patterns / markers / clip paths / masks:
    the property only says drawing terminates normally *)
 Definition check_refs (r : dres) : N :=
@@ -469,6 +505,7 @@ Definition check (c : case) : N :=
   | CViewbox p w h vx vy vw vh o1 o2 o3 o4 => check_viewbox p w h vx vy vw vh o1 o2 o3 o4
   | CShapes fs vw vh shs tr r => check_shapes fs vw vh shs tr r
   | CUse g root r => check_use g root r
+  | CUses ds us r => check_uses ds us r
   | CRefs r => check_refs r
   end.
 
@@ -479,6 +516,7 @@ Inductive mout :=
 | MViewbox (a b c d : Q)
 | MShapes (l : res (option (list shape_op))) (arcs : list arc_geo)
 | MUse (r : res (option (list N)))
+| MUses (whole : res (option (list use_op))) (instances : list (res (option (list use_op))))
 | MNone.
 
 Definition model_out (c : case) : mout :=
@@ -500,6 +538,7 @@ Definition model_out (c : case) : mout :=
               | _ => []
               end
   | CUse g root _ => MUse (document g root)
+  | CUses ds us _ => MUses (uses_ops ds us) (map (draw_use f32 rnd32 cv_f32 ds) us)
   | CRefs _ => MNone
   end.
 
